@@ -306,6 +306,12 @@ Section Driver.
   Definition ppairs : parser (list (tensor * tensor)) :=
     plist (let* x := ptensor in let* t := ptensor in pret (x, t)).
 
+  (* the batch size of `learn` is a usize; the model's is a unary nat.  A request beyond the size of the
+     data set is represented by (size + 1): Theory/Learn [learn_batch_beyond] proves that `learn` returns
+     the same for every two batch sizes that are at least the number of samples (and not 0). *)
+  Definition pbatch {A} (data : list A) : parser nat :=
+    let* b := tok in pret (Z.to_nat (Z.min b (Z.of_nat (S (length data))))).
+
   Definition ehist (h : history NF) : list Z :=
     elist (fun x => [efl x]) (h_train h) ++ elist (fun x => [efl x]) (h_vloss h)
     ++ elist (fun x => [efl x]) (h_vacc h).
@@ -316,7 +322,10 @@ Section Driver.
   | SBackward (x t : tensor)
   | SLearn (data : list (tensor * tensor)) (val : option (list (tensor * tensor) * Z)) (batch : nat) (epochs : Z)
   | SValidate (data : list (tensor * tensor)) (tol : T) (pre : bool)
-  | SPredictBatch (xs : list tensor).
+  | SPredictBatch (xs : list tensor)
+  (* direct writes of the public maps `Network.loopbacks` / `Network.connect` between calls *)
+  | SSetLoops (l : list (nat * (nat * nat * bool)))
+  | SSetConnect (l : list (nat * nat)).
 
   Definition psop : parser sop :=
     let* k := tok in
@@ -325,9 +334,12 @@ Section Driver.
     | 3 => let* x := ptensor in let* t := ptensor in pret (SBackward x t)
     | 4 => let* data := ppairs in
            let* val := popt (let* v := ppairs in let* th := tok in pret (v, th)) in
-           let* batch := pnat in let* epochs := tok in pret (SLearn data val batch epochs)
+           let* batch := pbatch data in let* epochs := tok in pret (SLearn data val batch epochs)
     | 5 => let* data := ppairs in let* tol := pfloat in let* pre := pbool in pret (SValidate data tol pre)
     | 7 => let* xs := plist ptensor in pret (SPredictBatch xs)
+    | 13 => let* l := plist (let* o := pnat in let* i := pnat in let* k := pnat in let* s := pbool in
+                             pret (o, (i, k, s))) in pret (SSetLoops l)
+    | 14 => let* l := plist ppair in pret (SSetConnect l)
     | _ => pfail
     end.
 
@@ -357,6 +369,8 @@ Section Driver.
         Ok ([efl (fst (snd r)); efl (snd (snd r))] ++ eflags (fst r) ++ o)
     | SPredictBatch xs :: rest =>
         do ys <- predict_batch seq_pmap n xs; do o <- run_script n rest; Ok (elist etensor ys ++ o)
+    | SSetLoops l :: rest => run_script (set_loopbacks n l) rest
+    | SSetConnect l :: rest => run_script (set_connect n l) rest
     end.
 
   Definition run_net_cmd (n : network NF) : parser (list Z) :=
@@ -376,7 +390,7 @@ Section Driver.
                        Ok (fst lg, r)))
     | 4 => let* data := ppairs in
            let* val := popt (let* v := ppairs in let* th := tok in pret (v, th)) in
-           let* batch := pnat in
+           let* batch := pbatch data in
            let* epochs := tok in
            let validation := match val with
                              | Some (v, th) => Some (map fst v, map snd v, th)
@@ -397,13 +411,13 @@ Section Driver.
     | 8 => let* x := ptensor in let* t := ptensor in let* stepnr := tok in
            pret (eres (fun n' => eweights n')
                       (do g <- sample_grad n (x, t); net_step stepnr n (fst g)))
-    | 10 => let* data := ppairs in let* batch := pnat in let* e1 := tok in let* e2 := tok in
+    | 10 => let* data := ppairs in let* batch := pbatch data in let* e1 := tok in let* e2 := tok in
             (* two consecutive calls of learn on the same network: optimizer state carries over *)
             pret (eres (fun r : network NF * history NF => ehist (snd r) ++ eweights (fst r))
                        (do r1 <- learn seq_pmap n (map fst data) (map snd data) None batch e1;
                         learn seq_pmap (fst r1) (map fst data) (map snd data) None batch e2))
     | 12 => let* ops := plist psop in pret (eres (fun o => o) (run_script n ops))
-    | 11 => let* data := ppairs in let* v := ppairs in let* th := tok in let* batch := pnat in
+    | 11 => let* data := ppairs in let* v := ppairs in let* th := tok in let* batch := pbatch data in
             let* e1 := tok in let* e2 := tok in
             (* two consecutive calls of learn WITH validation data: the second call starts its own epoch
                count and its own validation history *)
@@ -448,6 +462,32 @@ Section Driver.
                 let '(o', v', g') := u in
                 Ok (o', slot_set vs l f b v', out ++ etensor g'))
              steps (o0, vals, []))).
+
+  (* the optimizer is attached (validated) again between phases of steps: the state kept by the value
+     is zero-initialised at every attachment, the parameters carry on *)
+  Definition opt_steps (st : optimizer NF * list (list (list tensor)) * list Z)
+             (steps : list (nat * nat * bool * Z * tensor))
+    : res (optimizer NF * list (list (list tensor)) * list Z) :=
+    foldM (fun (st : optimizer NF * list (list (list tensor)) * list Z)
+               (stp : nat * nat * bool * Z * tensor) =>
+             let '(l, f, b, s, g) := stp in
+             let '(oc, vs, out) := st in
+             do v <- slot_get vs l f b;
+             do u <- opt_update oc l f b s v g;
+             let '(o', v', g') := u in
+             Ok (o', slot_set vs l f b v', out ++ etensor g'))
+          steps st.
+  Definition run_opt_phases : parser (list Z) :=
+    let* o := poptimizer in
+    let* vals := plist (plist (plist ptensor)) in
+    let* phases := plist (plist (let* l := pnat in let* f := pnat in let* b := pbool in let* s := tok in
+                                 let* g := ptensor in pret (l, f, b, s, g))) in
+    pret (eres (fun r : optimizer NF * list (list (list tensor)) * list Z =>
+                  snd r ++ elist (elist (elist etensor)) (snd (fst r)))
+      (foldM (fun (st : optimizer NF * list (list (list tensor)) * list Z) steps =>
+                let '(oc, vs, out) := st in
+                opt_steps (opt_validate oc (map (map (map zero_like)) vals), vs, out) steps)
+             phases (o, vals, []))).
 
   (* ---------------- connect call sequences ---------------- *)
   Definition run_connect_seq (n : network NF) : parser (list Z) :=
@@ -504,6 +544,7 @@ Section Driver.
     | 21 => let* o := pobj in let* cl := pclamp in let* p := ptensor in let* t := ptensor in
             pret (eres (fun r : T * tensor => efl (fst r) :: etensor (snd r)) (loss o cl p t))
     | 22 => run_opt_case
+    | 23 => run_opt_phases
     | 30 => let* wrap := pbool in let* seed := tok in let* n := pnat in
             let* lo := pfloat in let* hi := pfloat in
             pret (eres (elist (fun x => [efl x]))
